@@ -182,8 +182,12 @@ pub fn batch(seed: u64, n: usize) -> Vec<(Vec<String>, Settings)> {
         .map(|i| {
             let mut rng = Rng::new(seed, 0x100_0000 + i as u64);
             let al = &alphabets[i % alphabets.len()];
-            let tcs = if rng.chance(1, 2) { gen::repeat_family(&mut rng, al) } else { gen::family(&mut rng, al) };
-            let mut s = gen::settings(&mut rng, ALL_FLAGS & !(SURR));
+            let tcs = match i % 4 {
+                0 | 1 => gen::uniform_small(&mut rng, &["a", "b"]),
+                2 => gen::repeat_family(&mut rng, al),
+                _ => gen::family(&mut rng, al),
+            };
+            let mut s = if i % 4 <= 1 { Settings::new(REP) } else { gen::settings(&mut rng, ALL_FLAGS & !(SURR)) };
             if i % 2 == 0 {
                 s.flags |= REP;
             }
@@ -234,7 +238,7 @@ pub fn child_main(seed: u64, n: usize, threads: usize) -> i32 {
 
 fn cross_process(ctx: &Ctx, st: &mut Stats) {
     let exe = std::env::current_exe().unwrap();
-    let n = if ctx.thorough { 3000 } else { 400 };
+    let n = if ctx.thorough { 40_000 } else { 6_000 };
     let procs = if ctx.thorough { 32 } else { 6 };
     let cases = batch(ctx.seed(), n);
     let reference: Vec<String> = cases.iter().map(|(t, s)| format!("{:?}", build(t, *s))).collect();
@@ -311,6 +315,15 @@ pub fn run(ctx: &Ctx) -> i32 {
             s.flags |= REP;
         }
         rebuild_case(st, &tcs, s, r, &mut rng);
+    });
+    // uniformly random words over {a,b} / {a,b,c} with repetition conversion: the shape on which the
+    // minimiser's hash-order dependence (D14) shows about once in 3000 sets
+    let n = if ctx.thorough { 1_500_000 } else { 90_000 };
+    par_for(&ctx.run, n, |i, st| {
+        let mut rng = Rng::new(seed, 0x104_0000 + i as u64);
+        let tcs = gen::uniform_small(&mut rng, if i % 3 == 0 { &["a", "b", "c"] } else { &["a", "b"] });
+        st.count("uniform_small_words");
+        rebuild_case(st, &tcs, Settings::new(REP | if i % 5 == 0 { NOEND } else { 0 }), 4, &mut rng);
     });
     // exhaustive small sets with repetition conversion: all permutations of up to 4 words
     let words: Vec<String> = gen::words(&["a", "b"], 3).into_iter().filter(|w| !w.is_empty()).collect();
